@@ -310,8 +310,8 @@ class Responder():
         """
         self.environ = environ
 
-        if self.chunkable is not None:
-            self.chunkable = chunkable
+        if chunkable is not None:
+            self.chunkable = True if chunkable else False
 
         self.started = False
         self.headed = False
@@ -788,8 +788,9 @@ class Server():
                                                   chunkable=chunkable)
                         self.reps[ca] = responder
                     else:  # reuse
+                        chunkable = True if requestant.version >= (1, 1) else False
                         responder = self.reps[ca]
-                        responder.reset(environ=environ)
+                        responder.reset(environ=environ, chunkable=chunkable)
 
 
     def serviceReps(self):
